@@ -38,6 +38,13 @@ ASSUMPTIONS = [
 ]
 
 WEEKENDS = [[5, 6], [4, 5], [6], []]
+# spellings of the adjustment convention that Calendar documents / accepts ('f'ollowing, 'p'revious, 'm'odified following)
+ADJ_SPELL = {'f': ['f', 'f', 'F', 'following', 'Following'], 'p': ['p', 'p', 'P', 'previous', 'Previous'],
+             'm': ['m', 'm', 'M', 'modified', 'modified following', 'MF']}
+
+
+def _letter(a):
+    return a[0].lower()
 BASE = datetime.date(1996, 1, 1).toordinal()
 NMAX = 40
 
@@ -137,10 +144,33 @@ def _ref(cfg):
 def _cal(cfg):
     from pyg_base import Calendar
     hols = [_mk(o) for o in _expand(cfg)]
+    hform = cfg.get('hform', 'list')
+    if hform == 'tuple':
+        hols = tuple(hols)
+    elif hform == 'keys':
+        hols = dict.fromkeys(hols, 'a holiday').keys()
+    elif hform == 'auto':                      # None for no holidays, a bare datetime for a single one
+        hols = None if len(hols) == 0 else hols[0] if len(hols) == 1 else hols
     wform = cfg.get('wform', 'list')
-    weekend = list(cfg['weekend']) if wform == 'list' else tuple(cfg['weekend']) if wform == 'tuple' else cfg['weekend'][0]
-    cal = call('Calendar(holidays, weekend=%r, t0, t1, adj=%r)' % (weekend, cfg['adj']), Calendar,
-               None, hols, weekend, _mk(cfg['t0']), _mk(cfg['t1']), cfg['adj'])
+    w = list(cfg['weekend'])
+    if wform == 'tuple':
+        weekend = tuple(w)
+    elif wform == 'int':
+        weekend = w[0]
+    elif wform == 'rev':
+        weekend = w[::-1]
+    elif wform == 'dup':
+        weekend = w + w[-1:]
+    elif wform == 'np':
+        import numpy as np
+        weekend = [np.int64(i) for i in w]
+    elif wform == 'range':
+        weekend = range(w[0], w[-1] + 1)
+    else:
+        weekend = w
+    adj = cfg.get('adj_spelling', cfg['adj'])
+    cal = call('Calendar(holidays as %s, weekend=%r, t0, t1, adj=%r)' % (hform, weekend, adj), Calendar,
+               None, hols, weekend, _mk(cfg['t0']), _mk(cfg['t1']), adj)
     return cal
 
 
@@ -180,22 +210,43 @@ def _month_ends(t0, t1):
 
 
 @st.composite
-def _cfg(draw, lo_days, hi_days, max_runs=4, min_runs=0):
+def _cfg(draw, lo_days, hi_days, max_runs=4, min_runs=0, long_ranges=False):
     t0 = BASE + draw(st.integers(0, 3000))
-    ndays = draw(st.integers(lo_days, hi_days))
+    long_range = long_ranges and draw(st.integers(0, 9)) == 9      # a share of 7-10 year ranges (large lookup tables)
+    ndays = draw(st.integers(2400, 3650)) if long_range else draw(st.integers(lo_days, hi_days))
     t1 = t0 + ndays
     weekend = draw(st.sampled_from(WEEKENDS))
     adj = draw(st.sampled_from(['m', 'f', 'p']))
-    pct = draw(st.sampled_from([0, 1, 10, 40, 50, 80]))
+    adj_spelling = draw(st.sampled_from(ADJ_SPELL[adj]))
+    pct = draw(st.sampled_from([0, 1, 10] if long_range else [0, 1, 10, 40, 50, 80]))
     k = draw(st.integers(0, ndays * pct // 80)) if pct else 0     # duplicates collapse: 80 -> ~63% of days at most
-    wform = draw(st.sampled_from(['list', 'tuple', 'int'] if len(weekend) == 1 else ['list', 'tuple']))
+    wforms = ['list', 'tuple']
+    if len(weekend) == 1:
+        wforms.append('int')
+    if len(weekend) == 2:
+        wforms.extend(['rev', 'rev'])
+    if len(weekend) >= 1:
+        wforms.extend(['dup', 'np', 'range'])
+    wform = draw(st.sampled_from(wforms))
+    hform = draw(st.sampled_from(['list', 'list', 'tuple', 'keys', 'auto']))
     hols = [t0 + i for i in draw(st.lists(st.integers(0, ndays), min_size=k, max_size=k))]
     ends = _month_ends(t0, t1)
     runs = []
     for _ in range(draw(st.integers(min_runs, max_runs))):
-        kind = draw(st.sampled_from(['any', 'month_end', 'weekend', 'month_end']))
+        kind = draw(st.sampled_from(['any', 'month_end', 'weekend', 'month_end', 'whole_month', 'whole_month', 'year_end', 'leap_day', 'leap_day']))
         l = draw(st.one_of(st.integers(1, 7), st.integers(1, 7), st.integers(8, 40)))
-        if kind == 'month_end' and ends:
+        if kind == 'whole_month' and len(ends) >= 2:
+            j = draw(st.integers(0, len(ends) - 2))
+            s = ends[j] + 1 - draw(st.integers(0, 3))              # from (up to 3 days before) the 1st ...
+            l = ends[j + 1] + draw(st.integers(0, 3)) - s + 1      # ... to (up to 3 days after) the last day of one calendar month
+        elif kind == 'year_end' and [e for e in ends if _month(e) == 12]:
+            e = draw(st.sampled_from([e for e in ends if _month(e) == 12]))
+            s = e + draw(st.integers(-min(l, 3), 1))               # a run at / across 31 Dec - 1 Jan
+            l = max(l, 1) if s <= e + 1 < s + l or s <= e < s + l else e + 1 - s + 1
+        elif kind == 'leap_day' and [e for e in ends if _month(e) == 2 and datetime.date.fromordinal(e).day == 29]:
+            e = draw(st.sampled_from([e for e in ends if _month(e) == 2 and datetime.date.fromordinal(e).day == 29]))
+            s = e - draw(st.integers(0, l - 1))                    # a run containing 29 Feb
+        elif kind == 'month_end' and ends:
             e = ends[draw(st.integers(0, len(ends) - 1))]
             s = e - draw(st.integers(0, l - 1))          # the run contains the last day of the month
         elif kind == 'weekend':
@@ -205,7 +256,7 @@ def _cfg(draw, lo_days, hi_days, max_runs=4, min_runs=0):
         else:
             s = t0 + draw(st.integers(0, ndays))
         runs.append([s, l])
-    return dict(t0=t0, t1=t1, weekend=list(weekend), wform=wform, adj=adj, hols=hols, runs=runs)
+    return dict(t0=t0, t1=t1, weekend=list(weekend), wform=wform, hform=hform, adj=adj, adj_spelling=adj_spelling, hols=hols, runs=runs)
 
 
 def _interior(ref, margin):
@@ -218,7 +269,7 @@ def _interior(ref, margin):
 
 @st.composite
 def _day_case(draw, tier):
-    cfg = draw(_cfg(500, 1095) if tier == 'quick' else _cfg(730, 1095))
+    cfg = draw(_cfg(500, 1095, long_ranges=True) if tier == 'quick' else _cfg(730, 1095, long_ranges=True))
     ref = _ref(cfg)
     io = _interior(ref, NMAX + 1)
     if io is None:      # rare: needs > 60% density + 4 runs on >= 500 days; kept so that the domain is total
@@ -235,11 +286,22 @@ def _day_case(draw, tier):
         ts.append(st.sampled_from(special).map(lambda o: max(lo, o - 1)))
     if ends:
         ts.append(st.sampled_from(ends))
+    closed = sorted(set(o for s_, l_ in cfg['runs'] if l_ >= 28 for o in range(s_, s_ + l_) if lo <= o <= hi))
+    if closed:
+        ts.append(st.sampled_from(closed))      # inside a closure of a month or more: 'm' finds no business day in t's month either way
+    # the very first / last business days of the range: the walk is clipped below so that it still fits
+    B = ref.B
+    edge = sorted(set(range(B[0], B[0] + 4)) | set(range(B[-1] - 3, B[-1] + 1)) | set([B[1], B[-2]]))
+    ts.append(st.sampled_from(edge))
     t_s = st.one_of(*ts)
-    n_s = st.one_of(st.integers(-NMAX, NMAX), st.integers(-3, 3))
-    a_s = st.sampled_from([None, None, None, 'f', 'p', 'm'])
+    n_s = st.one_of(st.integers(-NMAX, NMAX), st.integers(-3, 3), st.sampled_from([0, NMAX, -NMAX, 1, -1]))
+    a_s = st.one_of(st.none(), st.none(), st.sampled_from(ADJ_SPELL['f'] + ADJ_SPELL['p'] + ADJ_SPELL['m']))
     npts = draw(st.integers(1, 40))
-    pts = draw(st.lists(st.tuples(t_s, n_s, a_s).map(list), min_size=npts, max_size=npts))
+    raw = draw(st.lists(st.tuples(t_s, n_s, a_s), min_size=npts, max_size=npts))
+    pts = []
+    for t, n, a in raw:
+        i = ref.idx[ref.adj(t, _letter(a or cfg['adj']))]
+        pts.append([t, max(-i, min(len(B) - 1 - i, n)), a])     # no-op for interior points
     return dict(cfg=cfg, pts=pts)
 
 
@@ -256,6 +318,26 @@ def _cfg_classes(cfg, ref):
         if any(_wd(o) in ref.weekend for o in (s - 1, s + l)):
             cls.append('run_touches_weekend')
             break
+    if any(l >= 31 for s, l in cfg['runs']):
+        cls.append('run>=31_days')
+    allh = _expand(cfg)
+    if len(allh) >= 100:
+        cls.append('holiday_list>=100')
+    if len(set(allh)) < len(allh):
+        cls.append('holidays_duplicated')
+    if allh != sorted(allh):
+        cls.append('holidays_unsorted')
+    dm = set((datetime.date.fromordinal(o).month, datetime.date.fromordinal(o).day) for o in ref.hol if cfg['t0'] <= o <= cfg['t1'])
+    if (2, 29) in dm:
+        cls.append('holiday_on_29feb')
+    if (12, 31) in dm or (1, 1) in dm:
+        cls.append('holiday_on_31dec_or_1jan')
+    if days >= 2000:
+        cls.append('range>=2000_days')
+    cls.append('holidays_as=' + cfg.get('hform', 'list'))
+    cls.append('weekend_as=' + cfg.get('wform', 'list'))
+    if cfg.get('adj_spelling', cfg['adj']) != cfg['adj']:
+        cls.append('adj_spelled_long_or_upper')
     return cls
 
 
@@ -263,9 +345,10 @@ def _cfg_classes(cfg, ref):
 
 def _point_laws(cal, ref, cfg, t, n, a, flags):
     """every law of the statement at one point. a = explicit adj override or None"""
-    eff = a or cfg['adj']
+    eff = _letter(a or cfg['adj'])
     T = _mk(t)
     kw = {} if a is None else {'adj': a}
+    nb = len(ref.B)
     tag = '[%s] ' % _cfg_txt(cfg)
     isb = ref.isb(t)
 
@@ -283,6 +366,7 @@ def _point_laws(cal, ref, cfg, t, n, a, flags):
     got = call('adjust(%s)' % _d(t), cal.adjust, T)
     check(_is_dt(got, exp[cfg['adj']]), tag + 'adjust(%s) with the calendar default adj=%s = %s; expected %s', _d(t), cfg['adj'], _show(got), _d(exp[cfg['adj']]))
     start = exp[eff]
+    i = ref.idx[start]
 
     # add(t, n) = n-th business day from adjust(t)
     e = ref.add(t, n, eff)
@@ -298,15 +382,19 @@ def _point_laws(cal, ref, cfg, t, n, a, flags):
         check(_is_dt(back, t), tag + 'add(add(t, %s), %s) = %s for the business day t = %s (add(t, %s) = %s)', n, -n, _show(back), _d(t), n, _show(r))
     # single-step path vs indexed path
     for s in (1, -1):
+        if not 0 <= i + 2 * s < nb:
+            continue                     # at the first / last business day of the range the two-step walk does not fit
         one = call('add(%s, %i)' % (_d(t), s), cal.add, T, s, **kw)
         two = call('add(add(%s, %i), %i)' % (_d(t), s, s), cal.add, one, s, **kw)
         direct = call('add(%s, %i)' % (_d(t), 2 * s), cal.add, T, 2 * s, **kw)
         check(isinstance(direct, datetime.datetime) and direct == two, tag + 'add(%s, %s) = %s but add(add(t, %s), %s) = %s (adj %s)', _d(t), 2 * s, _show(direct), s, s, _show(two), eff)
     # second route into add
+    bump = '%ib' % n
     if a is None:
-        bump = '%ib' % n
         r2 = call('dt_bump(%s, %r)' % (_d(t), bump), cal.dt_bump, T, bump)
-        check(_is_dt(r2, e), tag + 'add reached through dt_bump(%s, %s) = %s; walking gives %s', _d(t), bump, _show(r2), _d(e))
+    else:
+        r2 = call('dt_bump(%s, %r, %r)' % (_d(t), bump, a), cal.dt_bump, T, bump, a)
+    check(_is_dt(r2, e), tag + 'add reached through dt_bump(%s, %s, adj=%s) = %s; walking from adjust = %s gives %s', _d(t), bump, a, _show(r2), _d(start), _d(e))
 
     if not isb:
         flags.add('pt_nonbday')
@@ -320,8 +408,20 @@ def _point_laws(cal, ref, cfg, t, n, a, flags):
         flags.add('pt_loop_path')
     if n < 0:
         flags.add('pt_negative_n')
-    if a is not None and a != cfg['adj']:
+    if a is not None and eff != cfg['adj']:
         flags.add('pt_adj_override')
+    if a is not None and a != eff:
+        flags.add('pt_adj_override_spelled_long_or_upper')
+    if n == 0 and not isb:
+        flags.add('pt_n=0_nonbday')
+    if abs(n) == NMAX:
+        flags.add('pt_|n|=40')
+    if i == 0 or i + n == 0:
+        flags.add('pt_touches_first_bday_of_range')
+    if i == nb - 1 or i + n == nb - 1:
+        flags.add('pt_touches_last_bday_of_range')
+    if eff == 'm' and exp['m'] != exp['f'] and _month(exp['p']) != _month(t):
+        flags.add('pt_month_closed_both_ways')
     crosses = ref.hol_run2_between(min(start, e) - 1, max(start, e) + 1) if n else False
     if crosses:
         flags.add('pt_crosses_run>=2')
@@ -331,14 +431,26 @@ def _point_laws(cal, ref, cfg, t, n, a, flags):
 def run_day_laws(spec):
     cfg = spec['cfg']
     ref = _ref(cfg)
-    io = _interior(ref, NMAX + 1)
-    if io is None or not all(io[0] <= p[0] <= io[1] and abs(p[1]) <= NMAX for p in spec['pts']):
-        raise HarnessError('day_laws spec has a point outside the interior of the range')
+    B = ref.B
+    for t, n, a in spec['pts']:
+        if len(B) < 4 or not (B[0] <= t <= B[-1] and abs(n) <= NMAX and 0 <= ref.idx[ref.adj(t, _letter(a or cfg['adj']))] + n < len(B)):
+            raise HarnessError('day_laws spec has a point whose walk leaves the business days of the range')
     cal = _cal(cfg)
     flags = set()
     nt = 0
     for t, n, a in spec['pts']:
         nt += bool(_point_laws(cal, ref, cfg, t, n, a, flags))
+    # the vectorised spelling adjust([t1, t2, ..], adj) / adjust({k: t}, adj) is the same function applied to each date
+    ts = [p[0] for p in spec['pts'][:3]]
+    for a in (None, spec['pts'][0][2]):
+        eff = _letter(a or cfg['adj'])
+        got = call('adjust(list of %i dates, %r)' % (len(ts), a), cal.adjust, [_mk(t) for t in ts], a)
+        check(isinstance(got, list) and len(got) == len(ts) and all(_is_dt(g, ref.adj(t, eff)) for g, t in zip(got, ts)),
+              '[%s] adjust(%s, %s) = %s; date by date the answer is %s', _cfg_txt(cfg), [_d(t) for t in ts], a, [_show(g) for g in got] if isinstance(got, list) else got,
+              [_d(ref.adj(t, eff)) for t in ts])
+        got = call('adjust(dict of %i dates, %r)' % (len(ts), a), cal.adjust, dict(('k%i' % j, _mk(t)) for j, t in enumerate(ts)), a)
+        check(isinstance(got, dict) and sorted(got) == ['k%i' % j for j in range(len(ts))] and all(_is_dt(got['k%i' % j], ref.adj(t, eff)) for j, t in enumerate(ts)),
+              '[%s] adjust(dict of %s, %s) = %s; date by date the answer is %s', _cfg_txt(cfg), [_d(t) for t in ts], a, got, [_d(ref.adj(t, eff)) for t in ts])
     return dict(nt=nt > 0, cls=_cfg_classes(cfg, ref) + sorted(flags))
 
 
@@ -353,8 +465,8 @@ def _drange_case(draw, tier):
         ref = _ref(cfg)
     lo, hi = ref.B[0], ref.B[-1]
     special = sorted(set(o for o in _expand(cfg) if lo <= o <= hi))
-    t_s = st.one_of(st.integers(lo, hi), st.sampled_from(special)) if special else st.integers(lo, hi)
-    span = st.one_of(st.integers(0, 12), st.integers(0, 90), st.integers(0, hi - lo))
+    t_s = st.one_of(st.integers(lo, hi), st.sampled_from(special), st.sampled_from([lo, lo + 1, hi - 1, hi])) if special else st.one_of(st.integers(lo, hi), st.sampled_from([lo, hi]))
+    span = st.one_of(st.integers(0, 12), st.integers(0, 90), st.integers(0, hi - lo), st.sampled_from([0, 0, hi - lo]))
     npairs = draw(st.integers(1, 25))
     pairs = draw(st.lists(st.tuples(t_s, span).map(lambda p: [p[0], min(hi, p[0] + p[1])]), min_size=npairs, max_size=npairs))
     return dict(cfg=cfg, pairs=pairs)
@@ -383,6 +495,16 @@ def _drange_law(cal, ref, cfg, t, u, flags):
         flags.add('empty_result')
     if len(exp) == 1:
         flags.add('single_day')
+    if t == u and not ref.isb(t):
+        flags.add('same_day_nonbday')
+    if len(exp) >= 100:
+        flags.add('result>=100_days')
+    if a == ref.B[0]:
+        flags.add('starts_at_first_bday_of_range')
+    if b == ref.B[-1]:
+        flags.add('ends_at_last_bday_of_range')
+    if t < u and not any(ref.isb(o) for o in range(t, u + 1)):
+        flags.add('span_inside_one_closure')
     inner_hol = any(o in ref.hol and _wd(o) not in ref.weekend for o in range(a, b + 1))
     if inner_hol:
         flags.add('holiday_inside')
@@ -475,7 +597,8 @@ def run_all_days(spec):
 R0 = datetime.date(2000, 1, 3).toordinal()      # a Monday
 RW = 70                                          # holidays and observed days lie in [R0, R0 + RW)
 RT0, RT1 = R0 - 40, R0 + RW + 40                 # registered range
-KEYS = ['K1', 'k2', None]                        # None is the key of the default calendar()
+# None is the key of the default calendar(); the others are a prefix / a case variant / the str() of one another, and '' is falsy
+KEYS = ['US', 'USD', 'us', None, 'None', '']
 
 _hols_s = st.lists(st.integers(0, RW - 1), max_size=25)
 _hols1_s = st.lists(st.integers(0, RW - 1), min_size=1, max_size=25)
@@ -491,11 +614,13 @@ class RegistryModel(object):
         'reregister_obj': dict(key=_key_s, hols=_hols1_s),                          # calendar(calendar(key), holidays=h)
         'reregister_only_hols': dict(key=_key_s, hols=st.one_of(st.just([]), _hols_s)),   # calendar(key, holidays=h): nothing else passed, h often []
         'reregister_no_range': dict(key=_key_s, hols=st.one_of(st.just([]), _hols_s), weekend=_wk_s),  # calendar(key, holidays=h, weekend=w): no t0/t1
+        'reregister_tweak': dict(key=_key_s, j=st.integers(0, 30), d=st.integers(0, 60)),  # same number of holidays, same first and last, one in the middle moved
         'fetch': dict(key=_key_s),                                                  # calendar(key)
         'populate': dict(key=_key_s, k=st.integers(0, RW - 1), n=st.integers(2, 6)),  # force the lookup tables of the registered object
     }
     PRE = {
         'reregister_obj': lambda m: len(m.model) > 0,
+        'reregister_tweak': lambda m: len(m._tweakable()) > 0,
         'populate': lambda m: any(v['small'] for v in m.model.values()),
     }
 
@@ -562,6 +687,28 @@ class RegistryModel(object):
         call('calendar(%r, holidays=%s, weekend=%s)' % (key, [_d(R0 + i) for i in hols], weekend), lambda: self.D.calendar(key, holidays=self._dts(hols), weekend=list(weekend)))
         self.model[key] = dict(hols=set(R0 + i for i in hols), weekends=[list(weekend)], small=False)
         self.flags.add('range_omitted')
+
+    def _tweakable(self):
+        # keys with >= 3 holidays and a free day strictly between the first and the last one
+        return [k for k in sorted(self.model, key=repr) if len(self.model[k]['hols']) >= 3
+                and max(self.model[k]['hols']) - min(self.model[k]['hols']) + 1 > len(self.model[k]['hols'])]
+
+    def op_reregister_tweak(self, key, j, d):
+        keys = self._tweakable()
+        if key not in keys:
+            key = keys[0]
+        old = self.model[key]
+        hs = sorted(old['hols'])
+        free = [o for o in range(hs[0] + 1, hs[-1]) if o not in old['hols']]
+        hs[1 + j % (len(hs) - 2)] = free[d % len(free)]
+        weekend = list(old['weekends'][0])
+        self.flags.add('reregistered')
+        self.flags.add('reregistered_other_holidays')
+        self.flags.add('reregistered_same_count_first_last')
+        if key in self.tables:
+            self.flags.add('reregistered_after_tables_built')
+        call('calendar(%r, holidays=%s, weekend=%s, t0, t1)' % (key, [_d(o) for o in hs], weekend), self.D.calendar, key, [_mk(o) for o in hs], weekend, _mk(RT0), _mk(RT1))
+        self.model[key] = dict(hols=set(hs), weekends=[weekend], small=True)
 
     def op_register_obj(self, key, hols, weekend):
         self._note_rereg(key, hols)
@@ -642,9 +789,13 @@ class RegistryModel(object):
                 check(got == e, 'calendar(%s).bdays(%s, %s, "f") = %s; last registration implies %s', key, _d(R0), _d(R0 + RW), got, e)
             if 'reregistered_other_holidays' in self.flags:
                 self.rereg_then_seen = True
+        # keys whose names are related must stay separate entries
+        for a, b, label in (('US', 'us', 'case_variant_keys_differ'), ('US', 'USD', 'prefix_keys_differ'), (None, 'None', 'None_and_str_None_differ'), (None, '', 'None_and_empty_string_differ')):
+            if a in self.model and b in self.model and (self.model[a]['hols'] != self.model[b]['hols'] or self.model[a]['weekends'][0] != self.model[b]['weekends'][0]):
+                self.flags.add(label)
 
     def info(self):
-        cls = sorted(self.flags) + ['keys=%i' % len(self.model)]
+        cls = sorted(self.flags) + ['keys=%i' % min(len(self.model), 4)]
         return dict(nt=self.rereg_then_seen, cls=cls)
 
 
@@ -661,12 +812,21 @@ SUBS = [
              'add(add(t,n),-n) == t for business t, add(t,+-2) == add(add(t,+-1),+-1), dt_bump(t,"nb"). '
              'non-trivial = some point has t non-business, or its walk crosses >= 2 consecutive holidays, or the modified-following month-end rule fires',
         floor=0.5, class_floors={'pt_month_end_rule': 0.1, 'pt_crosses_run>=2': 0.2, 'pt_holiday_weekday': 0.3, 'run_straddles_month_end': 0.1,
-                                 'weekend=none': 0.1, 'weekend=6': 0.1, 'weekend=4,5': 0.1, 'adj=p': 0.15, 'adj=f': 0.15, 'adj=m': 0.15}),
+                                 'weekend=none': 0.1, 'weekend=6': 0.1, 'weekend=4,5': 0.1, 'adj=p': 0.15, 'adj=f': 0.15, 'adj=m': 0.15,
+                                 # appendix classes: boundaries (9), degenerate shapes (6), sizes (1), duplicates / order (8, 3), spellings (5, 10)
+                                 'pt_|n|=40': 0.3, 'pt_n=0_nonbday': 0.2, 'pt_touches_first_bday_of_range': 0.2, 'pt_touches_last_bday_of_range': 0.2,
+                                 'pt_month_closed_both_ways': 0.03, 'run>=31_days': 0.08, 'holiday_on_29feb': 0.02, 'holiday_on_31dec_or_1jan': 0.15,
+                                 'holiday_list>=100': 0.2, 'range>=2000_days': 0.03, 'holidays_duplicated': 0.3, 'holidays_unsorted': 0.5,
+                                 'weekend_as=rev': 0.02, 'weekend_as=dup': 0.02, 'weekend_as=np': 0.02, 'weekend_as=range': 0.02, 'weekend_as=int': 0.01,
+                                 'holidays_as=keys': 0.05, 'holidays_as=auto': 0.05, 'holidays_as=tuple': 0.05,
+                                 'adj_spelled_long_or_upper': 0.3, 'pt_adj_override_spelled_long_or_upper': 0.4}),
     Sub('drange_1b', _drange_case, run_drange, quick=1200, thorough=8000,
         rule='configuration as in day_laws (range 120-500 days) x 1-25 pairs t <= u between the first and last business day, spans 0-12 / 0-90 / anything, '
              'endpoints biased to holidays. Oracle: the list of business days d with adjust(t) <= d <= adjust(u), found by visiting every day, compared as a list '
              '(order, nothing missing, nothing extra). non-trivial = an endpoint is not a business day or a weekday holiday lies inside',
-        floor=0.5, class_floors={'endpoint_nonbday': 0.3, 'holiday_inside': 0.3, 'single_day': 0.05}),
+        floor=0.5, class_floors={'endpoint_nonbday': 0.3, 'holiday_inside': 0.3, 'single_day': 0.05, 'same_day_nonbday': 0.2, 'result>=100_days': 0.15,
+                                 'starts_at_first_bday_of_range': 0.3, 'ends_at_last_bday_of_range': 0.3, 'span_inside_one_closure': 0.1,
+                                 'weekend_as=rev': 0.02, 'holidays_as=keys': 0.05}),
     Sub('all_days', _all_case, run_all_days, quick=16, thorough=100,
         rule='one configuration, completely enumerated: every day between the first and last business day of the range (quick: range 90-200 days; thorough: 365-800 days) '
              'for is_bday/is_holiday/adjust f,p,m/drange(t, t+9), and every n in [-40,40] whose walk stays in range for add, bdays, inverse; 2-step law. '
@@ -678,6 +838,8 @@ SUBS = [
                     'is_holiday, adjust, add(+1) and - for small ranges - the table path add(+4) and bdays are compared with the LAST registration. '
                     'non-trivial = a key was re-registered with different holidays and fetched afterwards; registry cleared at the start of every history',
                floor=0.3, class_floors={'reregistered_after_tables_built': 0.1, 'object_route': 0.2, 'reregistered_empty_over_nonempty': 0.15,
+                                        'case_variant_keys_differ': 0.15, 'prefix_keys_differ': 0.15, 'None_and_str_None_differ': 0.15,
+                                        'None_and_empty_string_differ': 0.15, 'reregistered_same_count_first_last': 0.15,
                                         'registered_with_only_empty_arguments': 0.25}),
 ]
 
